@@ -125,16 +125,16 @@ impl MT950 {
     /// Get the first two characters of currency code from field 60
     fn get_field_60_currency_prefix(&self) -> &str {
         match &self.field_60 {
-            Field60::F(field) => &field.currency[0..2],
-            Field60::M(field) => &field.currency[0..2],
+            Field60::F(field) => currency_prefix(&field.currency),
+            Field60::M(field) => currency_prefix(&field.currency),
         }
     }
 
     /// Get the first two characters of currency code from field 62
     fn get_field_62_currency_prefix(&self) -> &str {
         match &self.field_62 {
-            Field62::F(field) => &field.currency[0..2],
-            Field62::M(field) => &field.currency[0..2],
+            Field62::F(field) => currency_prefix(&field.currency),
+            Field62::M(field) => currency_prefix(&field.currency),
         }
     }
 
@@ -186,7 +186,7 @@ impl MT950 {
 
         // Check field 64 if present (optional)
         if let Some(ref field_64) = self.field_64 {
-            let field_64_prefix = &field_64.currency[0..2];
+            let field_64_prefix = currency_prefix(&field_64.currency);
             if field_64_prefix != base_currency_prefix {
                 errors.push(SwiftValidationError::business_error(
                     "C27",
